@@ -58,7 +58,7 @@ QPAT = ['a']
 def fn(ks, d, kind):
     if kind == 'value':
         f = rnd.choice(['length','count','value'])
-        if f == 'length': return 'length(' + ws() + rnd.choice([singular(ks), strl(), fquery(ks, d+1, True)]) + ws() + ')'
+        if f == 'length': return 'length(' + ws() + rnd.choice([singular(ks), strl(), fquery(ks, d+1, True), 'value(' + fquery(ks, d+1, True) + ')', 'value(' + fquery(ks, d+1, True) + ')']) + ws() + ')'
         return f + '(' + fquery(ks, d+1, rnd.random()<0.8) + ')'
     f = rnd.choice(['in','nin','any_of','none_of','subset_of','foo','match','search','match','search'])
     if f in ('match', 'search'):
@@ -96,7 +96,11 @@ def segment(ks, d):
         k = rnd.choice([k for k in ks if k.isidentifier() and k.isascii()] or ['a'])
         return rnd.choice(['.', '..']) + rnd.choice([k, k, '*'])
     pre = '..' if rnd.random() < 0.15 else ''
-    return pre + '[' + ws() + (ws()+','+ws()).join(selector(ks, d) for _ in range(rnd.choice([1,1,1,2,3]))) + ws() + ']'
+    sels = [selector(ks, d) for _ in range(rnd.choice([1,1,1,2,3]))]
+    if rnd.random() < 0.12:
+        # the same selector (also the same filter) once more in the union, next to its twin or with others in between
+        dup = rnd.choice(sels); sels.insert(rnd.randrange(len(sels) + 1), dup if rnd.random() < 0.7 else dup.replace(' ', ''))
+    return pre + '[' + ws() + (ws()+','+ws()).join(sels) + ws() + ']'
 def fquery(ks, d, rel):
     s = '@' if rel else '$'
     for _ in range(rnd.choice([0,1,1,2])): s += segment(ks, d)
